@@ -23,8 +23,9 @@ between calls; the child prints its own location.  Which program a word names at
 operating system's answer: the harness asks exec.LookPath right before every call and feeds the answers
 to the model (parameter functions of the environment at the call and the argv); the oracle uses its own
 lookup over its own record of the file-system operations."""
-import json, os, re, shutil
+import copy, json, os, re, shutil
 from vlib import *
+import depslib
 
 VARS = ["V", "W", "X", "Y"]
 UNSET = "Z"                      # never set
@@ -259,7 +260,39 @@ def gen_glob_history(rng):
     return {"kind": "hist", "env": gen_env(rng), "arrays": arrays, "closures": [], "ops": ops}
 
 
+def gen_empty_history(rng):
+    """EMPTY and non-empty argument lists, first and repeated calls of each closure, closure and direct function side by
+    side: exactly one child per call - for the first call of a closure as for later ones, with no argument as with some"""
+    arrays = [[rng.choice(WORDS) for _ in range(3)]]
+    some = {"nil": False, "id": 0, "off": 0, "len": rng.choice([1, 2, 3]), "cap": 3}
+    empty = rng.choice([dict(NILS), {"nil": False, "id": 0, "off": 0, "len": 0, "cap": 3}])
+    cmd = rng.choice(CMDS_ABS + ["./tool", "tool"])
+    k = rng.choice(["run", "out"])
+    ops = [{"op": "mk", "kind": k, "cmd": cmd, "baked": dict(NILS)},
+           {"op": "call", "c": 0, "extra": empty},                                  # first call, no argument at all
+           {"op": "call", "c": 0, "extra": empty},                                  # again
+           {"op": "direct", "fn": "Output" if k == "out" else "Run", "emap": None, "cmd": cmd, "args": empty},
+           {"op": "call", "c": 0, "extra": some},
+           {"op": "mk", "kind": "out" if k == "run" else "run", "cmd": cmd, "baked": some if rng.random() < 0.5 else dict(NILS)},
+           {"op": "call", "c": 1, "extra": empty}, {"op": "call", "c": 1, "extra": empty},
+           {"op": "direct", "fn": rng.choice(FNS), "emap": None, "cmd": cmd, "args": empty}]
+    if rng.random() < 0.5:
+        ops.insert(3, {"op": "setenv", "k": "PATH", "v": rng.choice(CMD_VARS["PATH"])})
+    return {"kind": "hist", "env": gen_env(rng), "arrays": arrays, "closures": [], "ops": ops}
+
+
+def with_knob(case, k, v):
+    """the same case run with an environment variable that the tree under test reads and no model knows: whatever it is
+    meant for, it must not change what the children are started with"""
+    c = copy.deepcopy(case)
+    c["knobs"] = {k: v}
+    return c
+
+
 def gen_history(rng):
+    r = rng.random()
+    if r < 0.04:
+        return gen_empty_history(rng)
     r = rng.random()
     if r < 0.12:
         return gen_glob_history(rng)
@@ -495,6 +528,9 @@ def prepare(case, child, dirs):
     c = concretize(case, child, dirs)
     c["env"] = dict(c["env"], CHILD=child, CHILDDIR=os.path.dirname(child), **{FS_EPOCH: "0"})
     c["_child"], c["_dirs"], c["_abstract"] = child, dirs, case
+    c["_knobs_env"] = {k: depslib.knob_value(v) for k, v in (case.get("knobs") or {}).items()}
+    c["_knob_tmp"] = [os.path.dirname(p) for k, p in c["_knobs_env"].items() if case["knobs"][k] == "@FILE"] + \
+                     [p for k, p in c["_knobs_env"].items() if case["knobs"][k] == "@DIR"]
     c["_known"] = {child, dirs[2] + "/other"}
     env = dict(c["env"])
     epoch = 0
@@ -579,7 +615,10 @@ def run_chunks(ctx, binp, child, cases, tag, jobs=None):
             c = prepare(cases[i], child, dirs)
             open(outfile, "w").close()
             inp = json.dumps(request(c, outfile, gate)) + "\n"
-            rc, out, err = sh([binp], input=inp.encode(), timeout=600, env=goenv(), cwd=dirs[1])
+            # a knob is in the process environment from the start (it may be read when the package is initialised)
+            rc, out, err = sh([binp], input=inp.encode(), timeout=600, env=goenv(c["_knobs_env"] or None), cwd=dirs[1])
+            for d in c["_knob_tmp"]:
+                shutil.rmtree(d, ignore_errors=True)
             if rc != 0 and "DATA RACE" not in err:
                 raise BuildError("unitrun (shslice) failed rc=%d: %s" % (rc, err[-2000:]))
             lines = [l for l in out.splitlines() if l.strip()]
@@ -1021,6 +1060,7 @@ def run(ctx):
         "from exec.LookPath called by the harness right before each call (keyed by file-system epoch, PATH, command word) and from harness/argvchild's behaviour; "
         "the oracle uses its own lookup over its own record of the file-system operations",
     ]
+    knobs = []
     binp = go_build_harness(ctx, "unitrun")
     child = go_build_harness(ctx, "argvchild", tags=None, out=os.path.join(ctx.tmp, "argvchild"))
     rng = ctx.rng
@@ -1032,8 +1072,17 @@ def run(ctx):
         reps = 4 if ctx.quick else 10
         nalloc = 6 if ctx.quick else 60
         nbig, bigmax = (3, 2300) if ctx.quick else (24, 6000)     # the model's list memory makes a copy of n cells cost n^2
-        cases = ([gen_history(rng) for _ in range(nh)] + [gen_big_history(rng, bigmax) for _ in range(nbig)] +
-                 [gen_par(rng, reps) for _ in range(npar)] + [gen_par(rng, reps, alloc=True) for _ in range(nalloc)])
+        hists = [gen_history(rng) for _ in range(nh)]
+        pars = [gen_par(rng, reps) for _ in range(npar)]
+        cases = (hists + [gen_empty_history(rng) for _ in range(4)] + [gen_big_history(rng, bigmax) for _ in range(nbig)] +
+                 pars + [gen_par(rng, reps, alloc=True) for _ in range(nalloc)])
+        # KNOB DISCOVERY: every environment variable the tree under test reads and no model knows (none on the unchanged tree)
+        # becomes an environment dimension: a slice of the histories is run again under each of them
+        knobs = depslib.discover_knobs()
+        for k in knobs:
+            for v in ["1", "true", "@FILE", "1s"]:
+                sl = [gen_empty_history(rng) for _ in range(5 if ctx.quick else 20)] + hists[:10 if ctx.quick else 60] + pars[:2 if ctx.quick else 10]
+                cases += [with_knob(c, k, v) for c in sl]
     ctx.log("built; running %d cases" % len(cases))
     cases, answers, _ = run_chunks(ctx, binp, child, cases, "n")
     ctx.log("implementation ran")
@@ -1044,7 +1093,10 @@ def run(ctx):
         bad = oracle(c, a)
         if bad and nviol < 5:
             nviol += 1
-            ctx.violation({"kind": "oracle", "clause": bad[0], "all": bad[:6]}, case=c["_abstract"], extra={"implementation": a})
+            what = {"kind": "oracle", "clause": bad[0], "all": bad[:6]}
+            if c["_abstract"].get("knobs"):
+                what["under_environment_knob"] = c["_abstract"]["knobs"]     # a variable the tree reads and no model knows
+            ctx.violation(what, case=c["_abstract"], extra={"implementation": a})
 
     # the model on the same histories
     hist = [(c, a) for c, a in zip(cases, answers) if c["kind"] == "hist" and not a.get("error")]
@@ -1114,7 +1166,7 @@ def run(ctx):
     byfn, cmdforms = {}, {}
     feat = {"call_without_extra": 0, "call_after_setenv": 0, "repeated_call_of_one_closure": 0, "baked_with_spare_capacity": 0,
             "extra_aliases_baked_array": 0, "offset_slices": 0, "closures_sharing_an_array": 0, "dollar_in_baked": 0, "env_map_overrides": 0,
-            "par_repetitions": 0, "calls_with_shell_special_arguments": 0, "env_maps_with_odd_entries": 0, "env_maps_refused_by_os_exec": 0, "failing_calls": 0, "output_family_call_after_failed_call_with_output": 0,
+            "par_repetitions": 0, "closure_calls_with_empty_argument_list": 0, "first_calls_of_a_closure": 0, "calls_with_shell_special_arguments": 0, "env_maps_with_odd_entries": 0, "env_maps_refused_by_os_exec": 0, "failing_calls": 0, "output_family_call_after_failed_call_with_output": 0,
             "runcmd_called_under_other_verbose_than_made": 0, "calls_not_started": 0,
             "closure_called_again_with_another_program_named": 0, "closure_started_then_not_or_vice_versa": 0, "calls_in_verbose_mode": 0, "verbose_direct_calls_without_dollar": 0, "concurrent_slow_expansion_cases": 0}
     par_baked, par_goroutines, par_targets, par_shapes = {}, {}, {}, {}
@@ -1178,6 +1230,8 @@ def run(ctx):
                 cl = allcls[o["c"]]
                 feat["runcmd_called_under_other_verbose_than_made"] += (cl["kind"] == "run" and mk_verbose[o["c"]] is not None and mk_verbose[o["c"]] != is_verbose)
                 feat["call_without_extra"] += o["extra"]["len"] == 0
+                feat["closure_calls_with_empty_argument_list"] += o["extra"]["len"] == 0 and (cl["baked"].get("nil") or cl["baked"]["len"] == 0)
+                feat["first_calls_of_a_closure"] += calls_of[o["c"]] == 1
                 feat["call_after_setenv"] += setenv_seen
                 feat["baked_with_spare_capacity"] += cl["baked"]["cap"] > cl["baked"]["len"]
                 feat["extra_aliases_baked_array"] += (not o["extra"]["nil"] and not cl["baked"]["nil"] and o["extra"]["id"] == cl["baked"]["id"])
@@ -1238,6 +1292,8 @@ def run(ctx):
     cov["concurrent_baked_counts"] = {str(k): v for k, v in sorted(par_baked.items())}
     cov["calls_by_length_and_outcome"] = len_outcome
     cov["children_started_per_call"] = children
+    cov["knobs_discovered"] = knobs
+    cov["cases_run_under_a_knob"] = sum(1 for c in cases if c.get("knobs"))
     cov["file_system_operations"] = fsacts
     cov["concurrent_targets"] = par_targets
     cov["concurrent_shapes"] = par_shapes
